@@ -377,8 +377,30 @@ def rule_stable_softmax(repo, rep):
                    r'(np\.newaxis|None)\]$', arg)
       m2 = re.match(r'^(\w+) - logsumexp\((\w+), axis=1\)\[:, '
                     r'(np\.newaxis|None)\]$', arg)
+      def _shifted_by_own_lse(a0):
+        """x - logsumexp(x, axis=1)[:, None] / ...(x, axis=1, keepdims=True)
+        with the same expression x on both sides"""
+        if not (isinstance(a0, ast.BinOp) and isinstance(a0.op, ast.Sub)):
+          return False
+        x, r = a0.left, a0.right
+        sub = False
+        if isinstance(r, ast.Subscript):
+          if ast.unparse(r.slice).replace(' ', '') not in (
+                  ':,None', ':,np.newaxis', '(:,None)', '...,None'):
+            return False
+          r, sub = r.value, True
+        if not (isinstance(r, ast.Call) and ast.unparse(r.func).endswith(
+                'logsumexp') and r.args):
+          return False
+        kw = dict((k.arg, ast.unparse(k.value)) for k in r.keywords if k.arg)
+        ax = kw.get('axis', ast.unparse(r.args[1]) if len(r.args) > 1
+                    else None)
+        keep = kw.get('keepdims') == 'True'
+        return ast.dump(r.args[0]) == ast.dump(x) and ax in ('1', '-1') and \
+            (sub != keep)
       if (m and m.group(1) == m.group(2)) or \
-              (m2 and m2.group(1) == m2.group(2)):
+              (m2 and m2.group(1) == m2.group(2)) or \
+              (e.args and _shifted_by_own_lse(e.args[0])):
         # exp(x - logsumexp(x)): shift-invariant whatever x is (the sign of
         # x and the self-exclusion are decided by the other rules)
         rep.derived(R, key, site(f, e),
